@@ -215,6 +215,15 @@ func execHashio(vec J, out *Writer) {
 			case "s":
 				st["sum_is"] = sumIs(h.Sum(nil), stream[:pos])
 				st["size"] = int(h.Size())
+			case "sp": // Sum appends the digest to what it is given (hash.Hash's contract)
+				prefix := []byte("sha256:")
+				got := h.Sum(append([]byte{}, prefix...))
+				st["size"] = int(h.Size())
+				if len(got) >= len(prefix) && bytes.Equal(got[:len(prefix)], prefix) {
+					st["sum_is"] = sumIs(got[len(prefix):], stream[:pos])
+				} else {
+					st["sum_is"] = "prefix-lost"
+				}
 			case "e":
 				fh := control.FileHashFromHasher("file_1.0.tar.gz", *h)
 				raw, derr := hex.DecodeString(fh.Hash)
